@@ -25,7 +25,7 @@ def shards(tier, seed):
     from vmon.spec import datain as D
 
     tiny = ("readcapacity10", "readcapacity16", "prin.readreservation", "prin.reportcapabilities")  # (32 bytes or fewer: many more of them cost nothing)
-    out = [{"id": n, "fmt": n, "n": (40 if n not in tiny else 1500) if tier == "quick" else (800 if n not in tiny else 30000), "small": tier == "quick"} for n in D.FORMATS]
+    out = [{"id": n, "fmt": n, "n": (40 if n not in tiny else 1500) if tier == "quick" else (800 if n not in tiny else 6000), "small": tier == "quick"} for n in D.FORMATS]
     out.append({"id": "sense", "fmt": None, "n": 3000 if tier == "quick" else 100000, "small": tier == "quick"})
     out.append({"id": "readcd-params", "fmt": "readcd", "n": 0, "small": tier == "quick"})
     out.append({"id": "scaling", "fmt": None, "n": 0, "small": tier == "quick"})
